@@ -463,10 +463,7 @@ func rattrTerm(d *dg.Design, ra rawAttr) (string, bool) {
 	}
 	if ra.where != "body" {
 		bt, _ := d.Base(&ra.f.A.T)
-		if ra.f.A.T.Kind == "user" {
-			return "", false // aliases in parameters are outside the fragment
-		}
-		ty = paramTy(bt)
+		ty = paramTy(bt) // a primitive alias user type travels as its base primitive
 		if ty == "" || (strings.HasPrefix(ty, "(TyMap") && ra.where != "query") {
 			return "", false
 		}
@@ -503,6 +500,9 @@ func declared(es []dg.MapEntry, skip map[string]bool) string {
 func rawEpTerm(d *dg.Design, s *dg.Service, m *dg.Method) (string, rawSide, bool) {
 	fp := fullPath(d, s, m.HTTP.Routes[0].Path)
 	segs, vars := routeSegs(fp)
+	if strings.Contains(fp, "{*") {
+		return "", rawSide{skip: "catch-all route"}, false
+	}
 	rs := rawRequest(d, m, vars)
 	if rs.skip != "" {
 		return "", rs, false
@@ -808,7 +808,7 @@ func (mc *modelCases) addRequest(d *dg.Design, s *dg.Service, m *dg.Method, x *e
 	if ob.Invoked == 1 {
 		var got *dg.Val
 		if m.Payload != nil {
-			got = d.FromTree(&m.Payload.T, ob.Got)
+			got = fromTreeX(d, &m.Payload.T, ob.Got)
 		}
 		gt, ok := valTerms(d, rs.attrs, rs.whole, got, false)
 		if !ok {
@@ -892,7 +892,7 @@ func (mc *modelCases) addResponse(d *dg.Design, s *dg.Service, m *dg.Method, x *
 	default:
 		var got *dg.Val
 		if m.Result != nil {
-			got = d.FromTree(&m.Result.T, ob.ClientResult)
+			got = fromTreeX(d, &m.Result.T, ob.ClientResult)
 		}
 		gt, ok := valTerms(d, attrs, rr.whole, got, false)
 		if !ok {
